@@ -228,8 +228,12 @@ impl<T> Drop for Drain<'_, T> {
             // ZSTs have no identity, so we don't need to move them around, we only need to drop the correct amount.
             // this can be achieved by manipulating the slice length instead of moving values out from `iter`.
             unsafe {
+                // The remaining elements are dropped through the slice below, so `iter` must not drop them again.
+                let drop_len = iter.len();
+                mem::forget(iter);
+
                 let old_len = self.slice.len();
-                non_null::set_len(self.slice, old_len + iter.len() + self.tail_len);
+                non_null::set_len(self.slice, old_len + drop_len + self.tail_len);
                 non_null::truncate(self.slice, old_len + self.tail_len);
             }
 
